@@ -85,9 +85,16 @@ def assets():
     b1 = wopn([(0, 0, 0, ()), (1, 0, 0, ())])
     b2 = wopn([(0, 0, 0, ()), (0, 1, 0, (1, 2, 3)), (0, 0, 1, tuple(range(128))), (1, 0, 0, ()), (1, 0, 1, (35,))], flags=0x10 | 0x08 | 3)
     s1, s2 = song1(), song2()
+    good = [(0, _meta(0x03, b"ok")), (0, bytes([0x95, 60, 100])), (24, bytes([0x85, 60, 0]))]
+    # rejected in the middle: a well-formed header and first track, then a track the event parser gives up on
+    sbadtrk = smf([good, [(0, bytes([0x40, 0x40])), (0, bytes([0x95, 61, 100]))], good])      # data byte without running status
+    sbadvlq = smf([good, [(0, bytes([0x95, 61, 100]))]])
+    k = sbadvlq.rindex(b"MTrk") + 8
+    sbadvlq = sbadvlq[:k] + bytes([0xFF, 0xFF, 0xFF, 0xFF, 0xFF]) + sbadvlq[k + 5:]          # delta time that never ends
     a = {
         "b1": b1, "b2": b2, "bgarb": bytes(rng.randrange(256) for _ in range(97)), "btrunc": b1[:1000], "bempty": b"",
         "s1": s1, "s2": s2, "sgarb": bytes(rng.randrange(256) for _ in range(131)), "strunc": s1[:40], "sempty": b"",
+        "sbadtrk": sbadtrk, "sbadvlq": sbadvlq,
     }
     return {k: list(v) for k, v in a.items()}
 
